@@ -493,3 +493,44 @@ Proof. exact (round_exact_lemma RCeil). Qed.
 Lemma round_spec_lemma : forall q, rat_wf q = true ->
   exists r, q_round RRound q = Ok r /\ dval r = 1 /\ rat_is_Z r (round_spec RRound q) = true.
 Proof. exact (round_exact_lemma RRound). Qed.
+
+(* ------------------------------------------------------------------ *)
+(* rounding a quantity that carries a scaled dimensionless unit *)
+
+Definition wit_unit_c : brat := mkrat false (Small 3) (Small 2).     (* 1.5 *)
+Definition wit_unit_s : brat := mkrat false (Small 12) (Small 1).    (* dozen *)
+
+Lemma round_unit_scale_refuted_lemma : exists c s r, rat_wf c = true /\ rat_wf s = true /\
+  u_round RFloor c s = Ok r /\ rat_is_Z r (round_spec RFloor (rat_mul c s)) = false.
+Proof.
+  exists wit_unit_c, wit_unit_s. eexists. split; [reflexivity|]. split; [reflexivity|].
+  split; vm_compute; reflexivity.
+Qed.
+
+Lemma round_unit_scale_except_known_lemma : forall mode c s, rat_wf c = true -> rat_wf s = true ->
+  known_C10_round_unit_scale s = false ->
+  exists r, u_round mode c s = Ok r /\ rat_is_Z r (round_spec mode (rat_mul c s)) = true.
+Proof.
+  intros mode c s Wc Ws Hk.
+  unfold known_C10_round_unit_scale in Hk. apply negb_false_iff, andb_true_iff in Hk.
+  destruct Hk as [Hs Hsg]. apply N.eqb_eq in Hs. apply negb_true_iff in Hsg.
+  destruct (round_exact_lemma mode c Wc) as [r [Er [Dr Zr]]].
+  unfold u_round. rewrite Er. cbn [bind]. eexists; split; [reflexivity|].
+  apply rat_wf_parts in Wc. destruct Wc as [_ [_ Dc]].
+  apply rat_wf_parts in Ws. destruct Ws as [_ [_ Ds]].
+  (* the specification does not change when multiplying by s = 1 *)
+  assert (Hspec : round_spec mode (rat_mul c s) = round_spec mode c).
+  { rewrite !round_spec_core. apply spec_core_cross.
+    - unfold rat_mul, dval. cbn [rden]. rewrite val_of_N. fold (dval c) (dval s). nia.
+    - lia.
+    - unfold rat_num_Z, rat_mul, nval, dval, sign_mul. cbn [rneg rnum rden]. rewrite !val_of_N.
+      fold (nval c) (nval s) (dval c) (dval s). rewrite Hsg, xorb_false_r, Hs.
+      destruct (rneg c); rewrite !N2Z.inj_mul; ring. }
+  rewrite Hspec.
+  unfold rat_is_Z in *. apply andb_true_iff in Zr. destruct Zr as [_ Zr]. apply Z.eqb_eq in Zr.
+  rewrite Dr, Z.mul_1_r in Zr.
+  unfold rat_num_Z, rat_mul, nval, dval, sign_mul in *. cbn [rneg rnum rden] in *. rewrite !val_of_N.
+  fold (nval r) (nval s) (dval r) (dval s) in *. rewrite Hsg, xorb_false_r, Dr, N.mul_1_l.
+  assert ((dval s =? 0) = false) as -> by lia. cbn [negb andb]. apply Z.eqb_eq.
+  rewrite <- Zr, Hs. destruct (rneg r); rewrite N2Z.inj_mul; ring.
+Qed.
